@@ -72,12 +72,17 @@ func plans(id, tier string) (Plan, bool) {
 		return Plan{Level: "exploration", Jobs: []Job{
 			{Pkg: pkgV2, Harness: "c06_tokens", Shards: pick(4, 16)},
 			{Pkg: pkgV2, Harness: "c06_match", Params: map[bool]string{false: "docs=431;positions=1", true: "docs=431;positions=12"}[th], Shards: 16},
-			{Pkg: pkgV2, Harness: "c06_match", Params: map[bool]string{false: "docs=5;positions=0;kinds=notice,marker,split", true: "docs=60;positions=0"}[th], Shards: 16},
+			{Pkg: pkgV2, Harness: "c06_match", Params: map[bool]string{false: "docs=4;maxbytes=1200;positions=0;kinds=notice,marker,split", true: "docs=60;maxbytes=6000;positions=0"}[th], Shards: 16},
 		}}, true
 	case "C07":
 		return Plan{Level: "exploration", Jobs: []Job{
 			{Pkg: pkgV2, Harness: "c07_small", Shards: pick(6, 16)},
 			{Pkg: pkgV2, Harness: "c07_corpus", Params: "t=0.8", Shards: 16},
+		}}, true
+	case "C11":
+		return Plan{Level: "exploration", Jobs: []Job{
+			{Pkg: pkgV2, Harness: "c11_tokens", Shards: pick(8, 16)},
+			{Pkg: pkgV2, Harness: "c11_match", Params: "families=exact,scenario" + map[bool]string{false: "", true: ",concat,edit1"}[th], Shards: 16},
 		}}, true
 	case "C20":
 		return Plan{Level: "model_checking", Jobs: []Job{
